@@ -1,4 +1,4 @@
 SPECIFICATION GSpec
-CONSTANTS Keys = {7, 126} Datas = {7, 126} Msgs = {"a", "b"} MaxLen = 7 MaxPosts = 3 Sim = FALSE Caps = {1, 2}
+CONSTANTS Keys = {7, 126} Datas = {7, 126} Msgs = {"a", "b"} MaxLen = 6 MaxPosts = 3 Sim = FALSE Caps = {1, 2}
 INVARIANT QueueBounded DroppedOnlyWhenPolicy Emit
 CHECK_DEADLOCK FALSE
